@@ -811,7 +811,31 @@ def run(ses, rep):
 
 
 def replay(path):
+    import json
     fails = battery()
+    try:
+        r = json.load(open(path))["replay"]
+    except Exception:
+        r = {}
+    if not fails and "source" in r and "flags" in r:
+        # the recorded program again (a solver-derived comment / long-string text), under the recorded flags
+        fl = r["flags"]
+        rc, out, err = common.run_stylua(common.native_build("default"), r["source"], fl)
+        opt = lambda k, dflt: fl[fl.index(k) + 1] if k in fl else dflt
+        le, it, iw = opt("--line-endings", "Unix"), opt("--indent-type", "Tabs"), int(opt("--indent-width", "4"))
+        if rc == 0:
+            v = whitespace_violation(mask_literals(out), "\n" if le == "Unix" else "\r\n", it, iw)
+            first = (out.replace("\r\n", "\n") if le == "Windows" else out).split("\n")[0]
+            if not v and r["source"].startswith(("--", "#!")) and not r["source"].startswith("--[") and first != first.rstrip():
+                v = f"the comment line keeps trailing white space: {first!r}"
+            if v:
+                fails = [(v, {"flags": fl})]
+    if not fails:
+        for kind in ("StringLiteral", "MultiLineComment"):
+            v, rec = text_battery(kind)
+            if v:
+                fails = [(v, {"flags": rec.get("flags")})]
+                break
     for v, rec in fails[:5]:
         print(v, rec["flags"])
     if fails:
